@@ -101,6 +101,9 @@ def make_callers(procs):
     add("nobody-longA", e2e.NOBODY_UID, pid, path, cmd)
     pid, path, cmd = procs.spawn("tool", [long_prefix + "-exporter", "600"])
     add("nobody-longB", e2e.NOBODY_UID, pid, path, cmd)
+    # a process that exec()s another program between its connections (runner: exec_helpers / helper_exec)
+    add("root-exec", 0, EXEC_NAME, "<exec>", "<exec>")
+    pool["root-exec"]["exec"] = True
     # a crowd: 110 processes of one binary with distinct command lines (one summary entry each)
     for i in range(110):
         pid, path, cmd = procs.spawn("tool", ["crowd-%03d" % i, "600"])
@@ -109,10 +112,18 @@ def make_callers(procs):
 
 
 CROWD = ["crowd-%03d" % i for i in range(110)]
+EXEC_NAME = "h1"
+EXEC_ARGV = ["tail", "-f", "/dev/null"]
+BIG_LEN = 110000          # a chunked body above the 100 KiB limit of the non-exempt requests
 
 
-def resolve(caller, result):
-    """exe path and command line as the agent sees them for this caller in this run"""
+def resolve(caller, result, c=None):
+    """exe path and command line as the agent sees them for this caller (on connection c) in this run"""
+    if caller.get("exec"):
+        hp = (result.get("helpers") or {}).get(EXEC_NAME) or {}
+        if c is not None and c.get("stage") == "after":
+            return hp.get("exe_after") or "?", " ".join(EXEC_ARGV)
+        return hp.get("exe_before") or "?", " ".join(["sh", "-c", 'read x; exec "$@"', "sh"] + EXEC_ARGV)
     if caller["exe"] is None:
         p = os.path.join(result["scratch"], "e2e")
         return p, p
@@ -154,7 +165,7 @@ def gen_rules(rng, callers, mode=None):
 
 
 def gen_history(rng, idx, pool, concurrent):
-    names = [n for n in pool if not n.startswith("crowd-")]
+    names = [n for n in pool if not n.startswith("crowd-") and not pool[n].get("exec")]
     k = rng.randint(1, 4)
     chosen = rng.sample(names, k)
     if rng.random() < 0.25 and not concurrent:
@@ -208,6 +219,9 @@ def gen_history(rng, idx, pool, concurrent):
                     cur[ep] = gen_doc(rng, callers)
                 rchange = ep
             reqs.append({"method": m, "target": t, "body": b"" if m == "GET" else b"k=v&x=%d" % j, "rules": cur, "change": rchange})
+        if rng.random() < 0.12:
+            reqs.append({"method": "POST", "target": rng.choice([TARGETS[0], TARGETS[1], TARGETS[5]]), "body": b"", "big": True,
+                         "rules": cur, "change": None})
         conns.append({"id": ci + 1, "caller": c["name"], "dest": dest, "reqs": reqs, "rules": conn_rules, "change": change, "clear": clear})
     return {"idx": idx, "concurrent": concurrent, "callers": chosen, "rules": rules, "conns": conns,
             "key": rng.random() < 0.5, "status_task": rng.random() < 0.6}
@@ -248,7 +262,11 @@ def to_scenario(h, pool, reference=False):
         who = pool[c["caller"]]
         reqs = []
         for j, r in enumerate(c["reqs"]):
-            raw = http_request(r["method"], r["target"], [("Metadata", "true"), ("x-marker", marker(h, c, j))], body=r["body"])
+            if r.get("big"):
+                raw = http_request(r["method"], r["target"], [("Metadata", "true"), ("x-marker", marker(h, c, j)),
+                                                              ("Transfer-Encoding", "chunked")])
+            else:
+                raw = http_request(r["method"], r["target"], [("Metadata", "true"), ("x-marker", marker(h, c, j))], body=r["body"])
             before = []
             if r["change"] and not reference:
                 before.append({"op": "set_rules", "endpoint": r["change"], "item": doc_json(r["rules"][r["change"]])})
@@ -256,8 +274,13 @@ def to_scenario(h, pool, reference=False):
                 # all connections are accepted first, then every request is sent at the same instant
                 before += [{"op": "wait_trace", "port": 12000 + c["id"], "lookups": 1, "timeout_ms": 60000},
                            {"op": "barrier", "name": "burst-%d" % h["idx"], "n": len(h["conns"])}]
-            reqs.append(req(raw, ops_before=before) if before else req(raw))
+            kn = {"ops_before": before} if before else {}
+            if r.get("big"):
+                kn.update({"gen_body": {"len": BIG_LEN, "seed": 7, "chunk_sizes": [16384]}, "timeout_ms": 60000})
+            reqs.append(req(raw, **kn))
         ops = []
+        if c.get("exec_before"):
+            ops.append({"op": "helper_exec", "name": EXEC_NAME})
         if not reference:
             if c["change"]:
                 d = c["rules"][c["change"]]
@@ -272,6 +295,8 @@ def to_scenario(h, pool, reference=False):
                   rules=None if reference else rules_json(h["rules"]),
                   key={"guid": "11111111-2222-3333-4444-555555555555", "key": "ab" * 32, "incarnation": 1} if h["key"] else None,
                   concurrent=h["concurrent"])
+    if any(pool[c["caller"]].get("exec") for c in h["conns"]):
+        sc["exec_helpers"] = {EXEC_NAME: EXEC_ARGV}
     if h["status_task"] and not reference:
         sc["status_task_ms"] = 4
     return sc
@@ -286,6 +311,15 @@ def claims_py(who, exe):
 
 def expect_request(h, c, r, who, exe):
     """(status, relayed, recorded) the property demands for this request"""
+    st, relayed, recorded = expect_decision(h, c, r, who, exe)
+    if r.get("big") and relayed:
+        # the relay fails AFTER the decision (the chunked body exceeds the limit while it is being received): the client
+        # gets 400 and nothing reaches the host (C15) -- but a denial stays a denial: recorded once all the same
+        return 400, False, recorded
+    return st, relayed, recorded
+
+
+def expect_decision(h, c, r, who, exe):
     dest = c["dest"]
     if dest == OTHER:
         return 200, True, False
@@ -381,7 +415,7 @@ def property_check(h, r, ref, pool, sep_byte):
     snaps = {s["label"]: s for s in r.get("snapshots", [])}
     for c in h["conns"]:
         who = pool[c["caller"]]
-        exe, cmd = resolve(who, r)
+        exe, cmd = resolve(who, r, c)
         if c["clear"]:
             why = compare_summary("before the clear at connection %d" % c["id"], records, snaps.get("before-clear-%d" % c["id"], {}), sep_byte)
             if why:
@@ -467,14 +501,14 @@ def coq_history(h, r, pool, upto=None):
         if upto is not None and c["id"] >= upto:
             break
         who = pool[c["caller"]]
-        exe, cmd = resolve(who, r)
+        exe, cmd = resolve(who, r, c)
         for rq in c["reqs"]:
             rk = json.dumps({k: (None if d is None else G.doc_to_json(d)) for k, d in rq["rules"].items()}, sort_keys=True)
             if rk not in envs:
                 envs[rk] = "e%d" % len(envs)
                 defs.append("let %s := mk_env %s %s %s in" % (envs[rk], *[
                     copt(None if rq["rules"][k] is None else G.coq_item(rq["rules"][k]), "item") for k in ("wireserver", "hostga", "imds")]))
-        ck = "c_" + c["caller"].replace("-", "_")
+        ck = "c_" + c["caller"].replace("-", "_") + ("_" + c["stage"] if c.get("stage") else "")
         if ck not in envs:
             envs[ck] = ck
             defs.append("let %s := %s in let m%s := %s in" % (ck, G.coq_claims(claims_py(who, exe)), ck, cb(cmd)))
@@ -575,7 +609,19 @@ def run(ctx):
         # more distinct denied callers than any plausible "top N" cut of the published summary: status.json shows them all
         crowd = fixed(990006, [{"id": i + 1, "caller": n, "dest": WIRESERVER if i % 2 else HOSTGA, "reqs": [get0] * (1 + i % 3)}
                                for i, n in enumerate(CROWD)])
-        hs = [finalize(h) for h in [f8, longs, flips, burst_e, burst_a, crowd] + hs]
+        # a denied process exec()s another program and is denied again: each denial under the image at ITS connect
+        execs = fixed(990007, [{"id": 1, "caller": "root-exec", "dest": IMDS, "reqs": [get0] * 2},
+                               {"id": 2, "caller": "root-exec", "dest": IMDS, "reqs": [get0] * 3, "exec_before": True, "stage": "after"},
+                               {"id": 3, "caller": "root-exec", "dest": IMDS, "reqs": [get0], "stage": "after"}], rules=imds("enforce"))
+        # denials whose relay fails after the decision (over-limit chunked body), in audit and in enforce mode, and allowed ones
+        bigp = {"method": "POST", "target": TARGETS[0], "body": b"", "big": True}
+        bigs = fixed(990008, [{"id": 1, "caller": "root-helper", "dest": IMDS, "rules": imds("audit"), "reqs": [get0, dict(bigp)]},
+                              {"id": 2, "caller": "root-helper", "dest": IMDS, "rules": imds("audit"), "reqs": [dict(bigp)]},
+                              {"id": 3, "caller": "root-helper", "dest": IMDS, "rules": imds("enforce"), "reqs": [dict(bigp, rules=imds("enforce"), change="imds")]},
+                              {"id": 4, "caller": "root-helper", "dest": WIRESERVER, "rules": imds("enforce"), "reqs": [dict(bigp)]},
+                              {"id": 5, "caller": "nobody-helper", "dest": WIRESERVER, "rules": imds("enforce"), "reqs": [dict(bigp)]}],
+                     rules=imds("audit"))
+        hs = [finalize(h) for h in [f8, longs, flips, burst_e, burst_a, crowd, execs, bigs] + hs]
 
         def run_batch(batch, env=None, shards=None):
             scs, refmap = [], {}
@@ -592,6 +638,12 @@ def run(ctx):
             return scs, res[:len(batch)], {i: res[k] for i, k in refmap.items()}
 
         scs, results, refs = run_batch(hs, shards=4 if ctx.quick else 8)
+        # the histories that exist for the sake of status.json are run again, alone, when the file could not be read (load)
+        for i, h in enumerate(hs):
+            for _ in range(2):
+                sj = results[i].get("status_json")
+                if h["idx"] in (990006,) and (sj is None or "error" in sj):
+                    results[i] = run_batch([h], shards=1)[1][0]
         # the same bursts and a few concurrent histories again on a current-thread runtime (E2E_THREADS=0)
         import copy
         again = []
@@ -645,6 +697,8 @@ def run(ctx):
                 got = resp[j].get("status") if j < len(resp) else None
                 relayed_m = oc[0] == 2
                 want = 200 if relayed_m else oc[1]
+                if relayed_m and c["reqs"][j].get("big"):
+                    relayed_m, want = False, 400          # [handle] enters the forward step; the body limit (C15) ends it
                 seen = up.get(marker(h, c, j), [])
                 stats["requests"] += 1
                 stats["status_403"] += got == 403
